@@ -31,8 +31,8 @@ fn plan(cfg: &RunCfg) -> EncPlan {
 }
 
 pub fn check(c: &Call, rep: &mut Report) {
-    let exp = expected(c);
     let obs = observe(c, 0xC07);
+    let exp = crate::catalog::expected_as_stored(c);
     rep.eval();
     let form = c.form.name();
     let pkt = match note_outcome(rep, c, &obs) {
@@ -121,7 +121,9 @@ fn run(cfg: &RunCfg) -> Report {
                     e = e.wrapping_add(1 + (rng.byte() % 3));
                     ctx.get_response().set_eid(e);
                 }
-                if e == first_eid {
+                // the sweep must END on an EID inside C13's accessor quantifier (0x01-0xFE) and
+                // different from the first one: whether a store of 0x00 / 0xFF is adopted is free
+                while e == first_eid || e == 0x00 || e == 0xFF {
                     e = e.wrapping_add(1);
                     ctx.get_response().set_eid(e);
                 }
